@@ -30,6 +30,7 @@ RangeItems ==
 AccessItems == { I("r", "access", <<>>), I("w", "access", <<>>), I("rw", "access", <<>>),
                  I("x", "bad", <<>>), I("read", "bad", <<>>), I("rw rw", "bad", <<>>) }
 StrideItems == { I("stride = 2", "stride", <<>>), I("stride: 2", "stride", <<>>), I("stride = 4", "stride", <<>>),
+                 I("stride = 1", "stride", <<>>),          \* smaller than the two-bit ranges: semantically invalid there, in ANY order
                  I("stride 2", "bad", <<>>), I("stride =", "bad", <<>>), I("stride = x", "bad", <<>>), I("stride", "bad", <<>>),
                  I("step = 2", "bad", <<>>) }
 
@@ -70,7 +71,8 @@ GRanges(g) == RangeItem(g.items).ranges
 GAccess(g) == LET acc == {k \in 1..Len(g.items) : g.items[k].cls = "access"} IN
               IF acc = {} THEN "none" ELSE g.items[CHOOSE k \in acc : TRUE].text
 GStride(g) == LET st == {k \in 1..Len(g.items) : g.items[k].cls = "stride"} IN
-              IF st = {} THEN <<>> ELSE IF g.items[CHOOSE k \in st : TRUE].text = "stride = 4" THEN <<4>> ELSE <<2>>
+              IF st = {} THEN <<>> ELSE IF g.items[CHOOSE k \in st : TRUE].text = "stride = 4" THEN <<4>>
+                                ELSE IF g.items[CHOOSE k \in st : TRUE].text = "stride = 1" THEN <<1>> ELSE <<2>>
 
 ---------------------------------------------------------------------------
 (* enumeration of the attribute space *)
@@ -78,9 +80,10 @@ Level == IF "SPACE_LEVEL" \in DOMAIN IOEnv THEN atoi(IOEnv.SPACE_LEVEL) ELSE 1
 Seqs1 == {<<a>> : a \in RangeItems \cup AccessItems \cup StrideItems}
 Seqs2 == {<<a, b>> : a \in RangeItems, b \in AccessItems \cup StrideItems \cup (IF Level >= 2 THEN RangeItems ELSE {I("2..=3", "range", << <<2, 3>> >>)})}
          \cup {<<b, a>> : a \in RangeItems, b \in {I("rw", "access", <<>>), I("stride = 2", "stride", <<>>)}}
-SeqsPerm == {<<c, a, b>> : a \in {r \in RangeItems : r.cls # "bad"}, b \in {I("rw", "access", <<>>), I("w", "access", <<>>)}, c \in {I("stride = 4", "stride", <<>>), I("stride: 2", "stride", <<>>)}}
-            \cup {<<c, a>> : a \in {r \in RangeItems : r.cls # "bad"}, c \in {I("stride = 4", "stride", <<>>)}}
-            \cup {<<b, c, a>> : a \in {r \in RangeItems : r.cls = "range"}, b \in {I("rw", "access", <<>>)}, c \in {I("stride = 4", "stride", <<>>)}}
+SeqsPerm == {<<c, a, b>> : a \in {r \in RangeItems : r.cls # "bad"}, b \in {I("rw", "access", <<>>), I("w", "access", <<>>)}, c \in {I("stride = 4", "stride", <<>>), I("stride: 2", "stride", <<>>), I("stride = 1", "stride", <<>>)}}
+            \cup {<<c, a>> : a \in {r \in RangeItems : r.cls # "bad"}, c \in {I("stride = 4", "stride", <<>>), I("stride = 1", "stride", <<>>)}}
+            \cup {<<b, c, a>> : a \in {r \in RangeItems : r.cls = "range"}, b \in {I("rw", "access", <<>>)}, c \in {I("stride = 4", "stride", <<>>), I("stride = 1", "stride", <<>>)}}
+            \cup {<<a, c, b>> : a \in {r \in RangeItems : r.cls = "range"}, b \in {I("rw", "access", <<>>)}, c \in {I("stride = 1", "stride", <<>>)}}
 Seqs3 == {<<a, b, c>> : a \in (IF Level >= 2 THEN RangeItems ELSE {r \in RangeItems : r.cls # "bad"}), b \in AccessItems, c \in StrideItems}
          \cup {<<a, c, b>> : a \in {r \in RangeItems : r.cls # "bad"}, b \in {I("rw", "access", <<>>)}, c \in {I("stride = 2", "stride", <<>>)}}
          \cup {<<a, b, b2>> : a \in {r \in RangeItems : r.cls = "range"}, b \in {I("r", "access", <<>>)}, b2 \in {I("w", "access", <<>>), I("r", "access", <<>>)}}
